@@ -64,13 +64,17 @@ def rand_leaf(rng, kind=None):
     return leaf(rng.choice([0.5, 1e-3, -2.0]))
 
 
-def rand_dictval(rng, depth=0):
+def rand_dictval(rng, depth=0, dots=False):
     n = rng.choice([1, 1, 2, 3])
     keys = rng.sample(["x", "y", "k", "a", "b", "z_1"], n)
+    if dots and rng.random() < 0.25:
+        # a mapping VALUE may have any keys, dotted ones included ({"git.sha": ..}): it is a leaf, never a change set
+        # (seeded change C18-07 unflattens such values)
+        keys[0] = rng.choice(["g.sha", "a.b", "x.y.z", "lr.", ".k"])
     items = []
     for k in keys:
         if depth < 2 and rng.random() < 0.3:
-            items.append([k, rand_dictval(rng, depth + 1)])
+            items.append([k, rand_dictval(rng, depth + 1, dots)])
         else:
             items.append([k, rand_leaf(rng)])
     return dnode(items)
@@ -151,7 +155,7 @@ def gen_instance(rng, classes, name, mutate_noninit=False):
         elif kind == "list":
             fields.append([fn, True, rand_leaf(rng, "list"), None])
         elif kind == "dictf":
-            fields.append([fn, True, rand_dictval(rng) if rng.random() < 0.85 else dnode([]), None])
+            fields.append([fn, True, rand_dictval(rng, dots=True) if rng.random() < 0.85 else dnode([]), None])
         elif kind == "noninit":
             d = leaf(extra)
             cur = d
@@ -203,12 +207,12 @@ def gen_changes(rng, classes, node, p_field, p_bad):
             if r < 0.6:
                 items.append([fn, gen_instance(rng, classes, rng.choice(extra))])
             elif r < 0.85:
-                items.append([fn, rand_dictval(rng)])   # a dict where no instance is: becomes the value (documented)
+                items.append([fn, rand_dictval(rng, dots=True)])   # a dict where no instance is: becomes the value (documented)
             else:
                 items.append([fn, leaf(None)])
         elif kind == "dictf":
             r = rng.random()
-            items.append([fn, rand_dictval(rng) if r < 0.8 else (dnode([]) if r < 0.9 else rand_leaf(rng))])
+            items.append([fn, rand_dictval(rng, dots=True) if r < 0.8 else (dnode([]) if r < 0.9 else rand_leaf(rng))])
         else:
             items.append([fn, val if rng.random() < 0.1 else rand_leaf(rng, None if rng.random() < 0.3 else
                                                                     {"optint": "int"}.get(kind, kind))])
@@ -226,6 +230,8 @@ def render(rng, items, node, p_dot):
         if c["k"] == "dict" and c["items"]:
             child = children.get(k)
             dotted = rng.random() < p_dot
+            if not (child is not None and child["k"] == "dc") and has_dots(c["items"]):
+                dotted = False        # a dict VALUE with dotted keys has no dotted rendering: it is passed literally
             if child is not None and child["k"] == "dc":
                 sub = render(rng, c["items"], child, p_dot)
             elif dotted:
@@ -245,7 +251,7 @@ def render_value_dict(rng, items, p_dot):
     """a dict that becomes a VALUE: it may be inlined from the top (keys joined), never dotted underneath a kept dict."""
     out = []
     for k, c in items:
-        if c["k"] == "dict" and c["items"] and rng.random() < p_dot:
+        if c["k"] == "dict" and c["items"] and rng.random() < p_dot and not has_dots(c["items"]):
             out += [[k + "." + k2, c2] for k2, c2 in render_value_dict(rng, c["items"], p_dot)]
         else:
             out.append([k, c])
@@ -1275,7 +1281,10 @@ def to_coq(case, obs):
     if case.get("kind") == "sub":
         return to_coq_sub(case, obs)
     cd = "None" if case["cd"] is None else f"(Some {cdict(case['cd'])})"
-    ab = "None" if case["abs"] is None else f"(Some {cdict(case['abs'])})"
+    # the abstract (nested) form has dot-free keys at every change-set level by construction, so a dot in it belongs to a
+    # mapping VALUE: the Coq spec functions (deep_nf) do not cover those; the model itself does, and model = observed is
+    # still evaluated; the Python spec judges the frame
+    ab = "None" if case["abs"] is None or has_dots(case["abs"]) else f"(Some {cdict(case['abs'])})"
     flat = "None" if obs["flat"] is None else f"(Some {cdict(obs['flat']['items'])})"
     ref = "None" if obs["ref"] is None else f"(Some {_cres(obs['ref'], cval)})"
     return (f"CRep (mkcase {cval(obs['before'])} {cd} {cdict(case['kw'])} {ab} {_cres(obs['obs'], cval)} "
